@@ -381,6 +381,10 @@ func c11TwoSidedSig(o *c11Oracle, uRight bool, got, wrong float64, otherwise str
 
 type c11Pair struct {
 	X1, X2 []float64
+	// EL, TL > 0: the case is evaluated with the documented package variables
+	// MannWhitneyExactLimit / MannWhitneyTiesExactLimit set to these values
+	// (class modified-exact-limits, run serially; restored afterwards).
+	EL, TL int `json:",omitempty"`
 }
 
 func c11Copy(x []float64) []float64 { return append([]float64(nil), x...) }
@@ -700,7 +704,33 @@ func c11RandomSample(r *kit.Rand, n int, tied int, width int) []float64 {
 }
 
 func c11GenLarge(r *kit.Rand, i int) c11Pair {
-	tl, el := stats.MannWhitneyTiesExactLimit, stats.MannWhitneyExactLimit
+	return c11GenLargeLim(r, i, stats.MannWhitneyTiesExactLimit, stats.MannWhitneyExactLimit)
+}
+
+// c11CheckPairLimits evaluates the pair with the two documented limit
+// variables set as the case says. Only used by a Serial class.
+func c11CheckPairLimits(c c11Pair) *kit.Fail {
+	if c.EL > 0 && c.TL > 0 {
+		oe, ot := stats.MannWhitneyExactLimit, stats.MannWhitneyTiesExactLimit
+		stats.MannWhitneyExactLimit, stats.MannWhitneyTiesExactLimit = c.EL, c.TL
+		defer func() { stats.MannWhitneyExactLimit, stats.MannWhitneyTiesExactLimit = oe, ot }()
+		kit.Count("pairs evaluated with modified exact limits", 1)
+	}
+	return c11CheckPair(c)
+}
+
+func c11GenLimits(r *kit.Rand, i int) c11Pair {
+	el := kit.Pick(r, []int{5, 6, 8, 12, 20, 60})
+	tl := kit.Pick(r, []int{3, 4, 6, 10, 30})
+	for tl >= el {
+		tl = kit.Pick(r, []int{3, 4, 6, 10, 30})
+	}
+	c := c11GenLargeLim(r, i, tl, el)
+	c.EL, c.TL = el, tl
+	return c
+}
+
+func c11GenLargeLim(r *kit.Rand, i int, tl, el int) c11Pair {
 	var n1, n2 int
 	tied := r.Bool()
 	lim := el
@@ -733,6 +763,12 @@ func c11GenLarge(r *kit.Rand, i int) c11Pair {
 		n1, n2 = r.Range(1, 14), r.Range(1, 14)
 	default:
 		n1, n2 = r.Range(1, lim+2), r.Range(1, lim+2)
+	}
+	if n1 < 0 {
+		n1 = 0
+	}
+	if n2 < 0 {
+		n2 = 0
 	}
 	N := n1 + n2
 	pool := make([]float64, N)
@@ -1387,5 +1423,13 @@ func TestVerifC11(t *testing.T) {
 			"all evaluated in ONE case in the stored order: UDist.PMF/CDF at every half step and MannWhitneyUTest on samples built with that tie vector (split chosen so that U coincides between steps where possible), per step / pairs first / sweeps first; each against the exact counting recurrence, so a result must not depend on what was evaluated before; non-trivial = at least two distinct tie vectors and a group >= 10",
 		MinNonTrivial: 300,
 	}
-	kit.Run(t, "C11", enum, degenerate, large, udEnum, udRand, families)
+	limits := kit.Class[c11Pair]{
+		Name: "modified-exact-limits", Quick: 1500, Thorough: 40000, Serial: true,
+		Gen:        c11GenLimits,
+		Check:      c11CheckPairLimits,
+		NonTrivial: c11PairNonTrivial,
+		Rule: "as random-around-limits, but evaluated (serially) with the documented variables MannWhitneyExactLimit in {5,6,8,12,20,60} and MannWhitneyTiesExactLimit in {3,4,6,10,30} set before the call and restored after it: 'small enough for the exact method' is what these variables say at the time of the call",
+		MinNonTrivial: 1000,
+	}
+	kit.Run(t, "C11", enum, degenerate, large, udEnum, udRand, families, limits)
 }
